@@ -78,6 +78,47 @@ def check_one(sp, opts, acc, tag=""):
     return "layout"
 
 
+def fullwidth_shard(_):
+    """Decode direction only: fields filled to their full width without a terminator (other software
+    writes those).  The text must come back complete."""
+    acc = core.Acc()
+    g = gen
+    T = (True, True)
+    full256, full32 = "W" * 256, "V" * 32
+    cases = [
+        g.data3d(2, [g.mk_track3d(2, T, full256), g.mk_track3d(2, T, "next", 3)]),
+        g.emg(2, [(0, g.mk_emgsig(2, T, full256)), (1, g.mk_emgsig(2, T, "next", 3))]),
+        g.force3d(2, [g.mk_ftrack(2, T, full256), g.mk_ftrack(2, T, "next", 3)]),
+        g.platcal([(0, g.mk_platinfo(full256)), (1, g.mk_platinfo("next", 2))]),
+        g.events([g.mk_event(full256, 1, 2), g.mk_event("next", 0, 1, 4)]),
+        g.optical([g.mk_chan(0, lens=full32), g.mk_chan(1)]),
+        g.optical([g.mk_chan(0, ctype=full32, name=full32), g.mk_chan(1)]),
+    ]
+    for sp in cases:
+        acc.n["states"] += 1
+        acc.n["evaluations"] += 1
+        acc.n["nontrivial"] += 1
+        data = R.encode_block(sp, full_ok=True)
+        wit = {"fullwidth": specs.dump(sp)}
+        try:
+            d, pos = specs.lib_decode(sp["type"], sp["format"], data, b"\xee" * 8)
+            got = specs.extract(d)
+            acc.n["transitions"] += 1
+            df = specs.diff(sp, got)
+            if pos != len(data):
+                acc.violation("bytes-unaccounted", f"{PROP}:{R.NAMES[sp['type']]}:fullwidth:consumed", wit, f"reader stops at {pos} of {len(data)}")
+            elif df:
+                acc.violation("decoded!=layout-values", f"{PROP}:{R.NAMES[sp['type']]}:fullwidth:{df.split(':')[0].split('[')[0]}", wit,
+                              f"a text field filled to its full width: {df}")
+            else:
+                acc.outcomes["fullwidth:decoded"] += 1
+                acc.n["traces"] += 1
+        except Exception as e:  # noqa: BLE001
+            acc.violation("conformant-bytes-refused", f"{PROP}:{R.NAMES[sp['type']]}:fullwidth:{type(e).__name__}", wit, f"{type(e).__name__}: {e}")
+    acc.sample({"fullwidth": "labels / names of exactly 256 / 32 bytes without terminator, 6 kinds"}, 1)
+    return acc
+
+
 # ----------------------------------------------------------------------------- container side
 DATES = [datetime.datetime(1970, 1, 1, 0, 0, 0), datetime.datetime(1970, 1, 1, 0, 0, 1),
          datetime.datetime(2038, 1, 19, 3, 14, 7), datetime.datetime(2022, 6, 21, 14, 22, 52, 999999),
@@ -115,6 +156,11 @@ def container_shard(_):
                     b3 = specs.build(d3)
                     b3.creation_date, b3.last_modification_date = cd, cd
                     with tdf.allow_write() as f:
+                        if case % 2 == 0:       # a refused request first: it must leave no trace in the layout
+                            try:
+                                f.add_block(specs.build(gen.events([gen.mk_event("ok", 1, 1), gen.mk_event("L" * 300, 1, 1)])), "never stored")
+                            except Exception:  # noqa: BLE001
+                                pass
                         f.add_block(b1, comment)
                         f.add_block(b2)
                         f.add_block(b3, "3D without links")
@@ -316,12 +362,14 @@ def _shard(shard):
         return capture_shard(shard)
     if shard == "container":
         return container_shard(shard)
+    if shard == "fullwidth":
+        return fullwidth_shard(shard)
     return shape.run_shard(shard, _shard.tier, check_one, PROP)
 
 
 def run(tier):
     _shard.tier = tier
-    acc = core.pmap(__name__, "_shard", ["capture", "container"] + shape.shards())
+    acc = core.pmap(__name__, "_shard", ["capture", "container", "fullwidth"] + shape.shards())
     acc.merge(core.pmap("mc.editwalk", "run_shard", editwalk.shards(PROP, tier)))
     return acc
 
@@ -329,7 +377,9 @@ def run(tier):
 def replay(w):
     if w.get("editwalk"):
         return editwalk.replay(w)
-    if "capture_block" in w or "capture_entry" in w:
+    if "fullwidth" in w:
+        acc = fullwidth_shard(None)
+    elif "capture_block" in w or "capture_entry" in w:
         acc = capture_shard(None)
     elif "container" in w:
         acc = container_shard(None)
